@@ -322,8 +322,6 @@ fn exec(op: &str, args: &[Sexp]) -> Ans {
 			let js = tr!(s.as_jstring());
 			let k = tag(k);
 			let c = tr!(s.as_cps());
-			// proved domain (`ArrNameDomain`): the as-coded array check accepts every `[`-prefixed string (known finding)
-			if (k == "arr" || k == "class") && c.first() == Some(&0x5b) && !is_array_desc(&c) { return Ans::out_of_domain(); }
 			match (name_valid(&k, &js), name_spec(&k, &c)) {
 				(Some(a), Some(b)) => if a == b { Ans::pass() } else { Ans::fail(&k) },
 				_ => Ans::BadOp("kind".into()),
@@ -344,8 +342,9 @@ fn exec(op: &str, args: &[Sexp]) -> Ans {
 		}
 		("oracle-dimension", [s]) => {
 			let c = tr!(s.as_cps());
-			if !is_array_desc(&c) { return Ans::out_of_domain(); }
+			// `dimension_total`: on every valid `ArrClassName`, no panic and the number of leading `[`
 			let Ok(a) = ArrClassName::try_from(tr!(s.as_jstring())) else { return Ans::out_of_domain() };
+			if !is_array_desc(&c) { return Ans::fail("valid_not_desc"); }
 			let want = c.iter().take_while(|&&x| x == 0x5b).count();
 			match guarded(|| a.dimension()) { Some(d) if d as usize == want => Ans::pass(), _ => Ans::fail("dimension") }
 		}
@@ -464,6 +463,16 @@ fn gen(r: &mut Rng, tier: Tier, out: &mut Out) {
 					out.lines.push(format!("oracle-accepts {}", Sexp::cps(s)));
 				}
 				if len <= 4 { out.lines.push(format!("oracle-parse-print {}", Sexp::cps(s))); }
+				// every `[`-prefixed string also as array class name / class name (the region repaired by b182f7d)
+				if len <= 5 && s.first() == Some(&0x5b) {
+					for k in ["arr", "class"] {
+						out.lines.push(format!("name-valid {k} {}", Sexp::cps(s)));
+						out.lines.push(format!("oracle-name-spec {k} {}", Sexp::cps(s)));
+					}
+					out.lines.push(format!("arr-dimension {}", Sexp::cps(s)));
+					out.lines.push(format!("oracle-dimension {}", Sexp::cps(s)));
+					out.lines.push(format!("oracle-from-class {}", Sexp::cps(s)));
+				}
 				if len <= 4 && s.first() == Some(&0x28) {
 					out.lines.push(format!("args-size {}", Sexp::cps(s)));
 					out.lines.push(format!("oracle-args-size {}", Sexp::cps(s)));
